@@ -7,7 +7,8 @@ mkdir -p build evidence replays
 R="${VERIF_REPO:-/repo}"
 cp "$R/go.sum" harness/go.sum 2>/dev/null || true
 if [ "$R" != "/repo" ]; then (cd harness && go mod edit -replace github.com/ilius/libgostarcal="$R"); fi
-(cd harness && go build -tags verif -o ../build/oracle ./cmd/oracle && go build -tags verif -o ../build/extract ./cmd/extract)
+(cd harness && go build -tags verif -o ../build/oracle ./cmd/oracle && go build -o ../build/oracle-plain ./cmd/oracle && go build -tags verif -o ../build/extract ./cmd/extract)
+echo "meta hijri-table" | ./build/oracle | cut -f1 > build/hijri_table.json || true
 ./build/extract -repo "$R" -out lean/Starcal/Gen || echo "extract reported problems (the checks will report them)"
 (cd lean && timeout 3000 lake build Starcal driver)
 echo "setup ok"
